@@ -655,21 +655,21 @@ func distinctPts(d []Pt) int {
 func sceneClass(docs [][]Pt, hits []bool, rough func(Pt) int) string {
 	suspicious, onlyMV := 0, true
 	for i, d := range docs {
-		anyIn, allOut, anyOut := false, true, false
+		anyIn, allOut, anyNotIn := false, true, false
 		for _, p := range d {
 			switch rough(p) {
 			case 0:
 				anyIn, allOut = true, false
 			case 1:
-				anyOut = true
+				anyNotIn = true
 			default:
-				allOut = false
+				allOut, anyNotIn = false, true
 			}
 		}
 		bad := (anyIn && !hits[i]) || (allOut && hits[i])
 		if bad {
 			suspicious++
-			if !(distinctPts(d) >= 2 && anyIn && anyOut && !hits[i]) {
+			if !(distinctPts(d) >= 2 && anyIn && anyNotIn && !hits[i]) {
 				onlyMV = false
 			}
 		}
@@ -739,17 +739,22 @@ func exec(in In) vh.Result {
 			return res
 		}
 		hits := hitVector(order, len(in.Docs))
+		// signed inside-margin of p in one rectangle (positive inside), for the label only
+		margin := func(p Pt, minLon, maxLon float64) float64 {
+			return math.Min(math.Min(p.lon()-minLon, maxLon-p.lon()), math.Min(p.lat()-brLat, tlLat-p.lat()))
+		}
 		rough := func(p Pt) int {
-			lon, lat := p.lon(), p.lat()
-			latIn := lat >= brLat-1e-6 && lat <= tlLat+1e-6
-			lonIn := lon >= tlLon-1e-6 && lon <= brLon+1e-6
+			m := margin(p, tlLon, brLon)
 			if brLon < tlLon {
-				lonIn = lon >= tlLon-1e-6 || lon <= brLon+1e-6
+				m = math.Max(margin(p, -180, brLon), margin(p, tlLon, 180))
 			}
-			if latIn && lonIn {
+			if m > 1e-7 {
 				return 0
 			}
-			return 1
+			if m < -1.2e-6 {
+				return 1
+			}
+			return 2
 		}
 		nt, hist := sceneStats(in.Docs, hits)
 		hist = append(hist, "box:"+in.Engine)
